@@ -16,7 +16,7 @@ META = {
             'theorem C05_origin_or_unset); views follow the per-file keep/write/symlink/delete semantics (that is C04); a symlinked location points to a list that no later layer touches.',
 }
 P = 'Scalibr.Trace.'
-THEOREMS = [P + t for t in ('C05_origin_or_unset', 'C05_origin', 'C05_origin_spec', 'C05_cache_transparent', 'C05_populate',
+THEOREMS = [P + t for t in ('C05_spec_view', 'C05_origin_or_unset', 'C05_origin', 'C05_origin_spec', 'C05_cache_transparent', 'C05_populate',
                             'C05_populate_complete', 'C05_origin_is_write', 'C05_empty_layers_inert', 'C05_alignment', 'C05_details',
                             'C05_details_no_history', 'originSpec_iff')]
 
@@ -29,24 +29,6 @@ def _layers(case):
 def _cancel(case):
     t = case.split(' ')
     return len(t) == 5 and t[3] != '-'
-
-
-def _expected_meta(case):
-    """chain index -> (v1 ordinal | 'e', command) as initializeChainLayers' contract prescribes"""
-    mode, nf, ls = _layers(case)
-    full = [(l == 'E', 'cmd%d' % i) for i, l in enumerate(ls)]
-    hist = full if mode == 'H' else [] if mode == 'N' else full[:-1]
-    nlayers = sum(1 for l in ls if l != 'E')
-    if sum(1 for e, _ in hist if not e) != nlayers:
-        return [(str(i), '') for i in range(nlayers)]
-    out, v = [], 0
-    for e, c in hist:
-        if e:
-            out.append(('e', c))
-        else:
-            out.append((str(v), c))
-            v += 1
-    return out
 
 
 def run(ctx):
@@ -79,7 +61,8 @@ def run(ctx):
         want = dict(t.split('@') for t in ([] if fm['spec'] == '-' else fm['spec'].split(',')))
         if sorted(t.split('@')[0] for t in got) != sorted(want):
             return 'reported packages %s, the final view holds %s' % (fi['pk'], fm['spec'])
-        meta = _expected_meta(case)
+        # the chain layers the specification prescribes (Spec.specChain, printed by the Lean driver)
+        meta = [tuple(x.split(':')) for x in ([] if fm.get('al', '-') == '-' else fm['al'].split(','))]
         for t in got:
             name, _, where = t.partition('@')
             if where == 'nil':
@@ -94,9 +77,10 @@ def run(ctx):
             if not idx.isdigit() or int(idx) >= len(meta):
                 return 'package %s carries no valid layer index' % t
             ordn, _, cmd = rest.partition(':')
-            cmd = '' if cmd == '-' else binascii.unhexlify(cmd).decode()
             if (ordn, cmd) != meta[int(idx)]:
-                return 'package %s: DiffID/Command are those of (layer %s, %r) but chain layer %s is (layer %s, %r)' % (t, ordn, cmd, idx, meta[int(idx)][0], meta[int(idx)][1])
+                dec = lambda c: '' if c == '-' else binascii.unhexlify(c).decode()
+                return 'package %s: DiffID/Command are those of (layer %s, %r) but chain layer %s is (layer %s, %r)' % (
+                    t, ordn, dec(cmd), idx, meta[int(idx)][0], dec(meta[int(idx)][1]))
         return None
 
     def classify(case, fi, fm):
